@@ -15,6 +15,13 @@ commands
         the response in parallel (C08): every object of a listed class must be an instance of each fragment class
         (looked up in the fragments module) and that class alone must validate the same sub-payload
         -> "frag": {"checked": n, "problems": [...]}
+  {"cmd":"hints"} -> {"methods": {py_name: {"params": {name: hint}, "return": hint, "field_hints": {...}}}}
+        type hints of every client method resolved the way a type checker sees them (the `if TYPE_CHECKING:`
+        imports of client.py executed into the lookup namespace)                                        (C15)
+  call with "c15": true additionally returns "value" (structural dump of ANY returned object, dump_any) and,
+        for a model result, "fields" {python field name: dump_any(attribute)}; async-generator methods
+        (subscriptions) are driven through a fake graphql-transport-ws connection that executes the SUBSCRIBED
+        query under plan seeds seed, seed+1, ... ("events": n) and the list of yielded values is returned.
 
 The reference executor is graphql-core `execute_sync` on the query text the client SENT, with resolvers scripted
 by a plan: {"k": int (rotates runtime types at abstract positions), "null": float prob, "lens": [list lengths],
@@ -163,7 +170,10 @@ def decode(v):
         if "$unset" in v:
             return getattr(STATE["mods"]["base_model"], "UNSET")
         if "$enum" in v:
-            return getattr(pkg, v["$enum"][0])(v["$enum"][1])
+            cls = getattr(pkg, v["$enum"][0], None)
+            if cls is None:  # package without re-exports (NoReimports plugin): take it from its module
+                cls = next(getattr(m, v["$enum"][0]) for m in STATE["mods"].values() if hasattr(m, v["$enum"][0]))
+            return cls(v["$enum"][1])
         if "$model" in v:
             cls = getattr(STATE["mods"]["input_types"], v["$model"])
             return cls(**{k: decode(x) for k, x in v["kw"].items()})
@@ -380,6 +390,145 @@ def enumerate_corruptions(schema, data, types, limit, rng_seed):
     return out
 
 
+# ----------------------------------------------------------------------------- C15 helpers
+def dump_any(v):
+    """Structural, JSON-able image of whatever a client method returned (models, lists, enums, scalars)."""
+    from pydantic import BaseModel
+
+    if isinstance(v, BaseModel):
+        return {"$model": type(v).__name__, "module": type(v).__module__.split(".")[-1],
+                "dump": v.model_dump(mode="json", by_alias=True, exclude_unset=True)}
+    if isinstance(v, (list, tuple)):
+        return [dump_any(x) for x in v]
+    if isinstance(v, dict):
+        return {"$dict": {str(k): dump_any(x) for k, x in v.items()}}
+    if isinstance(v, enum.Enum):
+        return {"$enum": [type(v).__name__, v.value]}
+    if v is None or isinstance(v, (bool, int, float, str)):
+        return {"$t": type(v).__name__, "v": v}
+    return {"$repr": repr(v)[:300], "$t": type(v).__name__}
+
+
+class _FakeWs:
+    """Plays [connection_ack, next*n, complete]; records what the client sends."""
+
+    def __init__(self, req, box, captured):
+        self.req, self.box, self.captured = req, box, captured
+        self.sent = []
+        self.queue = None
+
+    async def send(self, text):
+        self.sent.append(json.loads(text))
+
+    async def recv(self):
+        return json.dumps({"type": "connection_ack"})
+
+    async def close(self, *a, **kw):
+        self.sent.append({"type": "$close"})
+
+    def _frames(self):
+        sub = next((m for m in self.sent if m.get("type") == "subscribe"), None)
+        if sub is None:
+            return []
+        payload = sub.get("payload", {})
+        self.captured.update(query=payload.get("query"), operationName=payload.get("operationName"),
+                             variables=payload.get("variables"), keys=sorted(payload), transport="ws",
+                             frames=[m.get("type") for m in self.sent])
+        plan = dict(self.req.get("plan") or {})
+        out = []
+        datas = []
+        for i in range(int(self.req.get("events", 2))):
+            pl = dict(plan, seed=plan.get("seed", 0) + i)
+            res, _types = STATE["run"](payload.get("query"), payload.get("variables"), payload.get("operationName"), pl)
+            if res.errors:
+                self.box.setdefault("exec_errors", []).extend(str(e) for e in res.errors)
+            datas.append(res.data)
+            out.append(json.dumps({"type": "next", "id": sub.get("id"), "payload": {"data": res.data}}))
+        self.box["data"] = datas
+        out.append(json.dumps({"type": "complete", "id": sub.get("id")}))
+        return out
+
+    def __aiter__(self):
+        self.queue = iter(self._frames())
+        return self
+
+    async def __anext__(self):
+        try:
+            return next(self.queue)
+        except StopIteration:
+            raise StopAsyncIteration
+
+
+def _patch_ws(client, req, box, captured):
+    """Replace ws_connect in the module defining the client's base class by a fake connection."""
+    import contextlib
+
+    for klass in type(client).__mro__:
+        mod = sys.modules.get(klass.__module__)
+        if mod is not None and hasattr(mod, "ws_connect"):
+            @contextlib.asynccontextmanager
+            async def fake_connect(*a, **kw):
+                yield _FakeWs(req, box, captured)
+
+            mod.ws_connect = fake_connect
+            return True
+    return False
+
+
+def _tc_namespace():
+    """globals of the generated client module + the names its `if TYPE_CHECKING:` block would import."""
+    import ast as _ast
+
+    mod = sys.modules[STATE["client_cls"].__module__]
+    ns = dict(vars(mod))
+    src = inspect.getsource(mod)
+    tree = _ast.parse(src)
+    errors = []
+    for node in tree.body:
+        if isinstance(node, _ast.If) and isinstance(node.test, _ast.Name) and node.test.id == "TYPE_CHECKING":
+            for st in node.body:
+                code = compile(_ast.Module(body=[st], type_ignores=[]), mod.__file__, "exec")
+                try:
+                    exec(code, ns)  # noqa: S102 (generated import statements)
+                except BaseException as exc:  # noqa
+                    errors.append(f"{_ast.unparse(st)}: {type(exc).__name__}: {exc}")
+    return ns, errors
+
+
+def _hrepr(h):
+    return f"{h.__module__}.{h.__qualname__}" if isinstance(h, type) and h.__module__ != "builtins" else repr(h)
+
+
+def cmd_hints(req):
+    cls = STATE["client_cls"]
+    ns, errors = _tc_namespace()
+    out = {"methods": {}, "tc_errors": errors}
+    for name, fn in vars(cls).items():
+        if name.startswith("_") or not callable(fn):
+            continue
+        try:
+            hints = typing.get_type_hints(fn, globalns=ns)
+            entry = {"params": {k: _hrepr(v) for k, v in hints.items() if k != "return"},
+                     "return": _hrepr(hints.get("return"))}
+        except BaseException as exc:  # noqa
+            entry = {"exc": [type(exc).__name__, str(exc)[:500]]}
+        out["methods"][name] = entry
+    # hints of the fields of every result class exported by the per-operation modules (for ShorterResults)
+    from pydantic import BaseModel
+
+    fh = {}
+    for mn, mod in STATE["mods"].items():
+        for cname, obj in vars(mod).items():
+            if isinstance(obj, type) and issubclass(obj, BaseModel) and obj.__module__ == mod.__name__:
+                try:
+                    fh[cname] = {k: _hrepr(v) for k, v in typing.get_type_hints(obj).items()
+                                 if k in obj.model_fields}
+                except BaseException as exc:  # noqa
+                    fh[cname] = {"$exc": f"{type(exc).__name__}: {exc}"}
+    out["field_hints"] = fh
+    return out
+
+
 # ----------------------------------------------------------------------------- commands
 def cmd_load(req):
     parent, pkgname = req["parent"], req["pkg"]
@@ -486,11 +635,18 @@ def cmd_call(req):
         return out
     client = make_client(handler)
     fn = getattr(client, req["method"])
+    if inspect.isasyncgenfunction(fn):
+        _patch_ws(client, req, box, captured)
 
     def invoke():
         r = fn(**args)
         if inspect.iscoroutine(r):
             return asyncio.run(r)
+        if inspect.isasyncgen(r):
+            async def drain():
+                return [x async for x in r]
+
+            return asyncio.run(drain())
         return r
 
     try:
@@ -504,6 +660,13 @@ def cmd_call(req):
 
     out["data"] = box.get("data")
     out["exec_errors"] = box.get("exec_errors")
+    if req.get("c15"):
+        out["value"] = dump_any(result)
+        items = result if isinstance(result, list) and inspect.isasyncgenfunction(fn) else [result]
+        out["fields"] = [
+            {k: dump_any(getattr(it, k)) for k in type(it).model_fields} if isinstance(it, BaseModel) else None
+            for it in items
+        ]
     if isinstance(result, BaseModel):
         out["result"] = {
             "class": type(result).__name__,
@@ -680,7 +843,8 @@ def main():
             continue
         req = json.loads(line)
         try:
-            res = {"load": cmd_load, "call": cmd_call, "eval": cmd_eval, "call_args": cmd_call_args}[req["cmd"]](req)
+            res = {"load": cmd_load, "call": cmd_call, "eval": cmd_eval, "call_args": cmd_call_args,
+                   "hints": cmd_hints}[req["cmd"]](req)
         except BaseException as exc:  # noqa
             res = {"ok": False, "exc": ["driver." + type(exc).__name__, str(exc)[:1500]], "tb": traceback.format_exc()[-3000:]}
         real.write(json.dumps(res, default=str) + "\n")
